@@ -1,91 +1,268 @@
 import Driver.Fam.Ser
+import Driver.Fam.Numb
 import CifModel.Model.Columns
+import CifModel.Model.StoreCodec
+import CifModel.Model.StoreRead
+import CifModel.Model.Numb
 /-
   family `storeval` (property C07): `storeval <route> <mutation> <value tokens>`.
-  The model of storing and reading back is the column mapping: `fromColumns (toColumns v)` (for lists and tables that
-  includes the serialisation through the 512-byte buffer and the deserialisation that re-parses number texts).  Every
-  route binds the value with SET_VALUE_PROPS and reads it with GET_VALUE_PROPS, so the route does not change the answer;
-  the caller's object is immutable here, so neither does the mutation.
-      ↦ `sv rc=0 m=<field-level dump>` | `sv rc=2` (CHECK constraint / serialisation failure)
+
+  The model runs the SAME calls the executor makes (harness/x_storeval.c), on the store model of group gF composed with the column codec
+  (Model/StoreCodec: every value enters the table through `image` = bind with SET_VALUE_PROPS, CHECK constraints, rebuild with
+  GET_VALUE_PROPS — for lists and tables that includes the serialisation through the 512-byte buffer and the deserialisation that
+  re-parses number texts):
+      set      createBlock; setValueC
+      additem  createBlock; createLoop (_k); addPacketC ×2; addItemC
+      addpkt   createBlock; createLoop (_k, _x); addPacketC
+      update   createBlock; createLoop (_k, _x); addPacketC; getPackets; nextPacket; updatePacketC; closeIter | abortIter
+      frameset createBlock; createLoop (_k) + packet; createFrame f; setValueC f _k; createFrame g in f; setValueC g _x v; read from g
+               (the walker reaches g through all_frames twice: `wcontOf`)
+      parse    as `set` (the parser stores an item outside a loop through cif_container_set_value: Props/C07Parser, family `parse`;
+               cif_write ∘ cif_parse on the text is property C02/C03's business — the request gives the value as the parser makes it)
+  and reads back through the three read paths the C07 theorems are about (Props/C07Read.lean):
+      m=   getValue (Model/Store)                      — the value, and f= its code (0 | CIF_AMBIGUOUS_ITEM for several packets)
+      mi=  getItemLoop; readLoop = getPackets + nextPacket until it stops (Model/PktItr via Model/StoreRead); pktGet _x of each packet
+      mw=  walkStore with the all-continue program (Model/Walk on `wcifOf`: all_blocks, all_loops, get_packets, next_packet, Model/StoreRead);
+           the values of the `item _x` callbacks
+      d=   Model/Numb.getNumber / getSu of a number read back by get_value (the doubles as sign, 53-bit mantissa, exponent)
+      ↦ `sv rc=0 m=<dump> f=<code> mi=<dumps> mw=<dumps> d=<val>#<su>|-` | `sv rc=2` (CHECK constraint / serialisation failure)
   `storeval bigparse <len> <t|q> <seed>`: a character value of <len> units read by the parser is the text written
       ↦ `sv rc=0 m=same`
-  `storeval parseloop 0 <value> | <value> | …`: one column of a parsed loop holding the values packet by packet; every packet
-  reads back as the image of its own value
-      ↦ `sv rc=0 m=<dump>,<dump>,…`
-  `storeval itsession 0 <value tokens>`: one iterator, update of packet 1, a rejected update at packet 2, update of packet 3;
-  the rows of the accepted updates hold `fromColumns (toColumns v)`, the row of the rejected one still holds the unknown value
-      ↦ `sv rc=0 u=0,rej,0 m=<dump>,U,<dump>` | `sv rc=0 u=2,rej,2 m=U,U,U` (value refused by the columns)
+  `storeval parseloop 0 <value> | <value> | …`: createLoop (_k, _x); one addPacketC per value (what the parser does for a loop); the same
+  three read paths, every packet
+      ↦ `sv rc=0 m=<first> f=<code> mi=<dump>,<dump>,… mw=<dump>,<dump>,…`
+  `storeval itsession 0 <value tokens>`: loop A (_k, _x) of three key-only packets, loop B (_y); one iterator over A: next, updatePacketC
+  {_x: v}; next, updatePacketC {_y: v} (refused: CIF_WRONG_LOOP, or CIF_ERROR when the codec refuses v); next, updatePacketC {_x: v};
+  closeIter; then a fresh `readLoop`
+      ↦ `sv rc=<close> u=<c1>,<0|rej>,<c3> m=<dump>,<dump>,<dump>`
 -/
 namespace Driver.Fam.Storeval
-open Driver CifModel CifModel.Model.Columns
+open Driver CifModel CifModel.Model.Columns CifModel.Store CifModel.Store.Codec
 open Driver.Fam.Ser (showV parseNumb)
 
 def name : String := "storeval"
 
-/-- the images of the values of a `|`-separated sequence, comma-joined (`none` = a value the codec refuses) -/
-def imagesOf (nf : Str → Str) (groups : List (List String)) : Option (Option (List String)) :=
-  groups.foldr (fun toks acc =>
-    match acc, CifArg.parseValue (Ser.cfg nf) (toks.length + 1) toks with
-    | some r, some (v, []) =>
-      match toColumns v with
-      | none => some none
-      | some row =>
-        if !checks row then some none else
-        match r with
-        | none => some none
-        | some ds =>
-          match fromColumns parseNumb row with
-          | some v' => some (some (showV v' :: ds))
-          | none => some (some ("~" :: ds))
-    | _, _ => none) (some (some []))
+def nm (k : Str) : Name := { key := k, orig := k, valid := true }
+def kB : Str := [98]            -- b
+def kK : Str := [95, 107]       -- _k
+def kX : Str := [95, 120]       -- _x
+def kY : Str := [95, 121]       -- _y
+def keyVal (n : Nat) : V := .chr false [48 + n]
+
+/-- the all-continue handler program (only handle_item is installed and it answers CIF_TRAVERSE_CONTINUE) — `Lemmas.Walk.allCont` -/
+def allCont : Walk.Prog := fun _ _ => Walk.CONTINUE
+
+def showOpt : Option V → String
+  | some v => showV v
+  | none => "!"
+
+/-- the doubles as the executor prints them: frexp's 53-bit mantissa and exponent -/
+def normDbl (m : Nat) (e : Int) : Nat → Nat × Int
+  | 0 => (m, e)
+  | fuel + 1 => if m < 2 ^ 52 then normDbl (m * 2) (e - 1) fuel else (m, e)
+
+def showDblC : Model.Numb.Dbl → String
+  | .fin n m e =>
+    if m = 0 then (if n then "-0" else "+0")
+    else let (m', e') := normDbl m e 1100; (if n then "-" else "+") ++ toString m' ++ ":" ++ toString e'
+  | .inf n => if n then "-inf" else "+inf"
+  | .nan => "nan"
+
+def showDoubles (v : V) : String :=
+  match v with
+  | .numb .. =>
+    (match Model.Numb.getNumber v with | .ok (_, d) => showDblC d | .error _ => "!") ++ "#" ++
+    (match Model.Numb.getSu v with | .ok (_, d) => showDblC d | .error _ => "!")
+  | _ => "-"
+
+/-- the three read paths on the final state; `all` = print every packet (else the same, it is the whole answer anyway) -/
+def readBack (s : Store) (hB : CH) (withDoubles : Bool) : String :=
+  let g := (getValue s hB (some (nm kX))).2
+  let gtxt := match g with | .ok (v, _) => showV v | .error _ => "~"
+  let f : Nat := match g with | .ok (_, false) => 0 | .ok (_, true) => Gen.ErrCodes.CIF_AMBIGUOUS_ITEM | .error c => c
+  let mi :=
+    match (getItemLoop s hB (some (nm kX))).2 with
+    | .error c => "!" ++ toString c
+    | .ok l =>
+      match readLoop s l (readFuel s) with
+      | .error c => "!" ++ toString c
+      | .ok (ps, fin) =>
+        ",".intercalate (ps.map (fun p => showOpt (pktGet p kX)))
+          ++ (if fin == some Gen.ErrCodes.CIF_FINISHED then "" else "!iter" ++ (match fin with | some c => toString c | none => "?"))
+  let w := walkStore allCont s
+  let mw := ",".intercalate (w.1.filterMap (fun e => match e with | .item k v => if k == kX then some (showV v) else none | _ => none))
+              ++ (if w.2 == 0 then "" else "!walk" ++ toString w.2)
+  let d := match g with | .ok (v, _) => showDoubles v | .error _ => "-"
+  "m=" ++ gtxt ++ " f=" ++ toString f ++ " mi=" ++ mi ++ " mw=" ++ mw ++ (if withDoubles then " d=" ++ d else "")
+
+def withBlock (k : Store → CH → Option String) : Option String :=
+  match createBlock {} (some (nm kB)) with
+  | (s, .ok hB) => k s hB
+  | _ => some "sv setup-failed"
+
+/-- `rc` of a chain of calls: the first that is not CIF_OK -/
+def code : Except Code Unit → Nat
+  | .ok _ => 0
+  | .error c => c
+
+/-- key-only packets (cif_loop_add_packet records the unknown value for the omitted _x) -/
+def addKeys (s : Store) (l : LH) : List Nat → Store × Nat
+  | [] => (s, 0)
+  | n :: ns =>
+    match addPacketC s l [(kK, keyVal n)] with
+    | (s1, .ok _) => addKeys s1 l ns
+    | (s1, .error c) => (s1, c)
+
+def storeRoute (route : String) (v : V) : Option String :=
+  withBlock fun s hB =>
+    let fin (s : Store) (rc : Nat) : Option String :=
+      if rc != 0 then some ("sv rc=" ++ toString rc) else some ("sv rc=0 " ++ readBack s hB true)
+    match route with
+    | "set" | "parse" =>
+      let (s1, r) := setValueC s hB (nm kX) v
+      fin s1 (code r)
+    | "additem" =>
+      match createLoop s hB none [nm kK] with
+      | (s1, .ok l) =>
+        let (s3, r12) := addKeys s1 l [1, 2]
+        if r12 != 0 then fin s3 r12 else
+        let (s4, r) := addItemC s3 l (nm kX) v
+        fin s4 (code r)
+      | (s1, .error c) => fin s1 c
+    | "addpkt" =>
+      match createLoop s hB none [nm kK, nm kX] with
+      | (s1, .ok l) =>
+        let (s2, r) := addPacketC s1 l [(kK, keyVal 1), (kX, v)]
+        fin s2 (code r)
+      | (s1, .error c) => fin s1 c
+    | "update" =>
+      match createLoop s hB none [nm kK, nm kX] with
+      | (s1, .ok l) =>
+        let (s2, r1) := addPacketC s1 l [(kK, keyVal 1)]
+        if code r1 != 0 then fin s2 (code r1) else
+        match getPackets s2 l with
+        | (s3, .error c) => fin s3 c
+        | (s3, .ok it) =>
+          match nextPacket s3 it with
+          | (_, .error c) => fin (abortIter s3).1 c
+          | (it1, .ok cur) =>
+            -- cif_packet_set_item(cur, "_x", v): the entry keeps its place
+            let upd := cur.map (fun e => if e.1 == kX then (kX, v) else e)
+            match updatePacketC s3 it1 upd with
+            | (s4, .ok _) => let (s5, r) := closeIter s4; fin s5 (code r)
+            | (s4, .error c) => fin (abortIter s4).1 c
+      | (s1, .error c) => fin s1 c
+    | "frameset" =>
+      -- block b: loop (_k) with one packet; save frame f in b: _k; save frame g in f: _x := v; read from g
+      match createLoop s hB none [nm kK] with
+      | (s1, .ok l) =>
+        let (s2, r1) := addKeys s1 l [1]
+        match createFrame s2 hB (some (nm [102])) with
+        | (s3, .ok hF) =>
+          let (s4, r2) := setValueC s3 hF (nm kK) (keyVal 1)
+          match createFrame s4 hF (some (nm [103])) with
+          | (s5, .ok hG) =>
+            let (s6, r) := setValueC s5 hG (nm kX) v
+            let rc := if r1 != 0 then r1 else if code r2 != 0 then code r2 else code r
+            if rc != 0 then some ("sv rc=" ++ toString rc) else some ("sv rc=0 " ++ readBack s6 hG true)
+          | (_, .error c) => some ("sv rc=" ++ toString c)
+        | (_, .error c) => some ("sv rc=" ++ toString c)
+      | (s1, .error c) => fin s1 c
+    | _ => none
+
+def parseVal (toks0 : List String) : Option V :=
+  match Ser.takeNormPairs toks0 with
+  | none => none
+  | some (nf, toks) =>
+    match CifArg.parseValue (Ser.cfg nf) (toks.length + 1) toks with
+    | some (v, []) => some v
+    | _ => none
 
 def splitBar (toks : List String) : List (List String) :=
   toks.foldr (fun t acc => if t == "|" then [] :: acc else match acc with | g :: r => (t :: g) :: r | [] => [[t]]) [[]]
 
+def parseVals (toks0 : List String) : Option (List V) :=
+  match Ser.takeNormPairs toks0 with
+  | none => none
+  | some (nf, toks) =>
+    (splitBar toks).foldr (fun g acc =>
+      match acc, CifArg.parseValue (Ser.cfg nf) (g.length + 1) g with
+      | some vs, some (v, []) => some (v :: vs)
+      | _, _ => none) (some [])
+
+/-- add one packet (_k, _x) per value -/
+def addAll (s : Store) (l : LH) : Nat → List V → Store × Nat
+  | _, [] => (s, 0)
+  | n, v :: vs =>
+    match addPacketC s l [(kK, keyVal (1 + n % 9)), (kX, v)] with
+    | (s1, .ok _) => addAll s1 l (n + 1) vs
+    | (s1, .error c) => (s1, c)
+
+def parseLoop (vs : List V) : Option String :=
+  withBlock fun s hB =>
+    match createLoop s hB none [nm kK, nm kX] with
+    | (s1, .ok l) =>
+      let (s2, rc) := addAll s1 l 0 vs
+      if rc != 0 then some ("sv rc=" ++ toString rc) else some ("sv rc=0 " ++ readBack s2 hB false)
+    | (_, .error c) => some ("sv rc=" ++ toString c)
+
+/-- the next / update steps of the session (packet numbers `ns`); returns the store, the update codes and the code that stopped the
+    loop (0: all steps done) -/
+def session (v : V) : List Nat → Store → Iter → Store × List (Option Nat) × Nat
+  | [], s, _ => (s, [], 0)
+  | n :: ns, s, it =>
+    match nextPacket s it with
+    | (_, .error c) => (s, [], c)
+    | (it1, .ok _) =>
+      let upd := if n == 1 then [(kY, v)] else [(kX, v)]
+      let (s1, r) := updatePacketC s it1 upd
+      let (s2, us, rc) := session v ns s1 it1
+      (s2, some (code r) :: us, rc)
+
+def itSession (v : V) : Option String :=
+  withBlock fun s hB =>
+    match createLoop s hB none [nm kK, nm kX] with
+    | (s1, .ok la) =>
+      let (s2, rc2) := addKeys s1 la [1, 2, 3]
+      match createLoop s2 hB none [nm kY] with
+      | (s3, .ok lb) =>
+        let (s4, r4) := addPacketC s3 lb [(kY, .unk)]
+        if rc2 != 0 || code r4 != 0 then some "sv setup-failed" else
+        match getPackets s4 la with
+        | (_, .error _) => some "sv setup-failed"
+        | (s5, .ok it) =>
+          let (s6, us, rc) := session v [0, 1, 2] s5 it
+          let (s7, rcl) := closeIter s6
+          let rcFinal := if rc == 0 || rc == Gen.ErrCodes.CIF_FINISHED then code rcl else rc
+          let u (i : Nat) : Option Nat := (us.getD i none)
+          let showU (o : Option Nat) : String := match o with | some c => toString c | none => "-1"
+          let u1 := match u 1 with | some 0 => "0" | some _ => "rej" | none => "none"
+          let rows :=
+            match readLoop s7 la (readFuel s7) with
+            | .ok (ps, _) => ",".intercalate (ps.map (fun p => showOpt (pktGet p kX)))
+            | .error _ => "!nopackets"
+          some ("sv rc=" ++ toString rcFinal ++ " u=" ++ showU (u 0) ++ "," ++ u1 ++ "," ++ showU (u 2) ++ " m=" ++ rows)
+      | _ => some "sv setup-failed"
+    | _ => some "sv setup-failed"
+
 def handle : Handler
   | "parseloop" :: "0" :: toks0 =>
-    match Ser.takeNormPairs toks0 with
+    match parseVals toks0 with
     | none => none
-    | some (nf, toks) =>
-      match imagesOf nf (splitBar toks) with
-      | none => none
-      | some none => some "sv rc=2"
-      | some (some ds) => some ("sv rc=0 m=" ++ ",".intercalate ds)
+    | some vs => if vs.isEmpty then none else parseLoop vs
   | ["bigparse", len, style, seed] =>
     match len.toNat?, seed.toNat? with
     | some n, some _ => if n = 0 || !(["t", "q"].contains style) then none else some "sv rc=0 m=same"
     | _, _ => none
   | "itsession" :: "0" :: toks0 =>
-    match Ser.takeNormPairs toks0 with
+    match parseVal toks0 with
+    | some v => itSession v
     | none => none
-    | some (nf, toks) =>
-    match CifArg.parseValue (Ser.cfg nf) (toks.length + 1) toks with
-    | some (v, []) =>
-      let refused := "sv rc=0 u=2,rej,2 m=U,U,U"
-      match toColumns v with
-      | none => some refused
-      | some row =>
-        if !checks row then some refused else
-        let d := match fromColumns parseNumb row with
-          | some v' => showV v'
-          | none => "~"
-        some ("sv rc=0 u=0,rej,0 m=" ++ d ++ ",U," ++ d)
-    | _ => none
   | route :: mode :: toks0 =>
-    if !(["set", "additem", "addpkt", "update", "parse"].contains route) || !(["0", "1", "2"].contains mode) then none else
-    match Ser.takeNormPairs toks0 with
+    if !(["set", "additem", "addpkt", "update", "parse", "frameset"].contains route) || !(["0", "1", "2"].contains mode) then none else
+    match parseVal toks0 with
+    | some v => storeRoute route v
     | none => none
-    | some (nf, toks) =>
-    match CifArg.parseValue (Ser.cfg nf) (toks.length + 1) toks with
-    | some (v, []) =>
-      match toColumns v with
-      | none => some "sv rc=2"
-      | some row =>
-        if !checks row then some "sv rc=2" else
-        match fromColumns parseNumb row with
-        | some v' => some ("sv rc=0 m=" ++ showV v')
-        | none => some "sv rc=0 m=~"
-    | _ => none
   | _ => none
 
 end Driver.Fam.Storeval
